@@ -303,9 +303,7 @@ def _set_n_jobs(spec, n_jobs):
 def execute(prop, scen):
     res = RunResult()
     peers.reset()
-    from sktime.forecasting.base import ForecastingHorizon
-    ForecastingHorizon.to_relative.cache_clear()
-    ForecastingHorizon.to_absolute.cache_clear()
+    C.reset_caches()
     np.random.seed(12345)
     cat = scen["cat"]
     digest = hashlib.sha256()
